@@ -30,7 +30,7 @@ META = {
                           'tables_with_only_orthogonal_pairs']
                          + ['kind_' + k for k in RANK],
     'shards': {'quick': 16, 'thorough': 16},
-    'exhaustive': {'quick': 'all 682 boolean tables <= 3x3', 'thorough': 'all boolean tables <= 3x3, 3x4, 4x3'},
+    'exhaustive': {'quick': 'all 682 boolean tables <= 3x3', 'thorough': 'all boolean tables <= 3x3, 3x4, 4x3, 4x4'},
     'assumptions': ['entries are read through .kind/.left/.right/.order'],
 }
 
